@@ -2,7 +2,10 @@ use std::ops::{Deref, DerefMut};
 
 use celestia_proto::celestia::core::v1::proof::NmtProof as RawNmtProof;
 use celestia_proto::proof::pb::Proof as RawProof;
+use nmt_rs::NamespaceId;
+use nmt_rs::simple_merkle::error::RangeProofError;
 use nmt_rs::simple_merkle::proof::Proof as NmtProof;
+use nmt_rs::simple_merkle::utils::compute_num_left_siblings;
 use serde::{Deserialize, Serialize};
 use tendermint_proto::Protobuf;
 
@@ -106,10 +109,120 @@ impl NamespaceProof {
         // for each tree level. Based on that we can recompute the total amount
         // of leaves in a tree.
         if self.end_idx().saturating_sub(self.start_idx()) == 1 {
-            Some(1 << self.siblings().len())
+            // No tree has 2^64 or more leaves; a longer list of siblings is malformed
+            // and must not overflow the shift.
+            u32::try_from(self.siblings().len())
+                .ok()
+                .and_then(|levels| 1usize.checked_shl(levels))
         } else {
             None
         }
+    }
+
+    /// Verify that the provided *raw* leaves are present in the tree and form
+    /// a contiguous subset of the given [`Namespace`].
+    ///
+    /// The shape of the proof is validated before it is handed to [`nmt_rs`],
+    /// which panics on malformed proofs instead of returning an error.
+    ///
+    /// [`Namespace`]: crate::nmt::Namespace
+    pub fn verify_range(
+        &self,
+        root: &NamespacedHash,
+        raw_leaves: &[impl AsRef<[u8]>],
+        leaf_namespace: NamespaceId<NS_SIZE>,
+    ) -> Result<(), RangeProofError> {
+        self.validate_shape(&leaf_namespace, &leaf_namespace)?;
+        self.0.verify_range(root, raw_leaves, leaf_namespace)
+    }
+
+    /// Verify that the provided *raw* leaves are a complete [`Namespace`].
+    /// This may be a proof of presence or absence.
+    ///
+    /// The shape of the proof is validated before it is handed to [`nmt_rs`],
+    /// which panics on malformed proofs instead of returning an error.
+    ///
+    /// [`Namespace`]: crate::nmt::Namespace
+    pub fn verify_complete_namespace(
+        &self,
+        root: &NamespacedHash,
+        raw_leaves: &[impl AsRef<[u8]>],
+        namespace: NamespaceId<NS_SIZE>,
+    ) -> Result<(), RangeProofError> {
+        match self.leaf() {
+            // proof of absence is verified with its leaf in place of the leaves of the namespace
+            Some(leaf) => {
+                if leaf.min_namespace() > leaf.max_namespace() {
+                    return Err(RangeProofError::MalformedProof(
+                        "leaf of the absence proof has min namespace greater than max namespace",
+                    ));
+                }
+                self.validate_shape(&leaf.min_namespace(), &leaf.max_namespace())?;
+            }
+            None => self.validate_shape(&namespace, &namespace)?,
+        }
+        self.0.verify_complete_namespace(root, raw_leaves, namespace)
+    }
+
+    /// Check that the siblings of the proof can be hashed together with leaves
+    /// spanning the `first_namespace..=last_namespace`.
+    ///
+    /// Every node of a namespaced merkle tree covers a namespace range, and nodes are
+    /// ordered by those ranges. Proofs received from the network may break that, in which
+    /// case [`nmt_rs`] panics when hashing the nodes (`left max namespace must be <= right
+    /// min namespace`) or indexes the siblings out of bounds.
+    fn validate_shape(
+        &self,
+        first_namespace: &NamespaceId<NS_SIZE>,
+        last_namespace: &NamespaceId<NS_SIZE>,
+    ) -> Result<(), RangeProofError> {
+        let siblings = self.siblings();
+
+        // each set bit of the start index needs a sibling on the left of the proven range
+        let num_left_siblings = compute_num_left_siblings(self.start_idx() as usize);
+        if num_left_siblings > siblings.len() {
+            return Err(RangeProofError::MalformedProof(
+                "proof has fewer siblings than its start index requires",
+            ));
+        }
+
+        if siblings
+            .iter()
+            .any(|node| node.min_namespace() > node.max_namespace())
+        {
+            return Err(RangeProofError::MalformedProof(
+                "sibling has min namespace greater than max namespace",
+            ));
+        }
+
+        if siblings
+            .windows(2)
+            .any(|pair| pair[0].max_namespace() > pair[1].min_namespace())
+        {
+            return Err(RangeProofError::MalformedProof(
+                "siblings are not ordered by their namespaces",
+            ));
+        }
+
+        if self
+            .rightmost_left_sibling()
+            .is_some_and(|left| left.max_namespace() > *first_namespace)
+        {
+            return Err(RangeProofError::MalformedProof(
+                "left sibling has namespace greater than the proven leaves",
+            ));
+        }
+
+        if self
+            .leftmost_right_sibling()
+            .is_some_and(|right| *last_namespace > right.min_namespace())
+        {
+            return Err(RangeProofError::MalformedProof(
+                "right sibling has namespace lower than the proven leaves",
+            ));
+        }
+
+        Ok(())
     }
 }
 
